@@ -19,7 +19,7 @@ CLAIM = dict(
     text="Theorems in DarsiaProps.C20 over tables re-tabulated from the running helpers on every run (G1): agreement of "
     "to_matrix/to_cartesian with interpret_indexing, there-and-back, integer = named axis, coherence and bijectivity of "
     "interpret_indexing, layout helper = coordinate-system placement (all shapes), layout helpers mutually inverse (all shapes, "
-    "all indices), slice/reduce by name = by index. Exhaustive over the finite vocabulary; random arrays (incl. trailing payload axes) tie the "
+    "all indices), slice/reduce by name resolve to the same matrix axis as by index, and slicing at the centre coordinate of voxel v selects index v (tabulated on the base shape 2x3x5; the \"same data\" clause for other shapes, series and vector payloads is checked by the oracle). Exhaustive over the finite vocabulary; random arrays (incl. trailing payload axes) tie the "
     "layout index maps and slicing/reduction to the model. Observed by the oracle only (no theorem): name = index agreement along call "
     "sequences that move the origin in place, and voxel placement of scalar/vector/tensor data in the VTK export (pyevtk stubbed).",
     note="numpy swapaxes/flip semantics (tied by the layout correspondence); tabulation is exhaustive over dims 1-3 x axes x indexings.",
@@ -123,8 +123,31 @@ def reduce_axis_tab(d, axarg, dim):
     return (int(r.index), int(r.axis))
 
 
+def slice_selection(d, t, a, dim, v):
+    """Which index along its matrix axis does `Image.slice(c, a)` select when c is the centre coordinate of voxel v
+    (coordinate computed from the tabulated axis table and the image's origin/dimensions, not by the coordinate system)?"""
+    M = {1: "i", 2: "ij", 3: "ijk"}[dim]
+    it = t["interpret"][(a, M)]
+    if isinstance(it, Raised):
+        return it
+    p, _ = it
+    shape = BASE_SHAPE[:dim]
+    img = make_image(d, dim)
+    vox = [0] * dim
+    vox[p] = v
+    origin = [float(x) for x in np.asarray(img.origin).ravel()]
+    c = cell_centre_coordinate(t, dim, origin, [float(x) for x in img.dimensions], shape, vox)["xyz".find(a)]
+    r = call(img.slice, float(c), a)
+    if isinstance(r, Raised):
+        return r
+    for w in range(shape[p]):
+        if r.img.shape == np.take(img.img, w, axis=p).shape and np.array_equal(r.img, np.take(img.img, w, axis=p)):
+            return w
+    return Raised(ValueError("selects no slab of the array"))
+
+
 def tabulate(d):
-    t = {"toMatrix": {}, "toCartesian": {}, "interpret": {}, "m2c": {}, "c2m": {}, "slice": {}, "reduce": {}}
+    t = {"toMatrix": {}, "toCartesian": {}, "interpret": {}, "m2c": {}, "c2m": {}, "slice": {}, "reduce": {}, "sliceSel": {}}
     args = AXES + [0, 1, 2]
     for a in args:
         for ind in INDS:
@@ -154,6 +177,9 @@ def tabulate(d):
         for a in args:
             t["slice"][(a, dim)] = slice_axis(d, a, dim)
             t["reduce"][(a, dim)] = reduce_axis_tab(d, a, dim)
+        for a in "xyz"[:dim]:
+            for v in range(max(BASE_SHAPE)):
+                t["sliceSel"][(a, dim, v)] = slice_selection(d, t, a, dim, v) if v < 5 else Raised(IndexError("v"))
     return t
 
 
@@ -174,6 +200,12 @@ def emit(t) -> str:
     table("sliceAxis", "AxArg → Dim → Except Err Nat", t["slice"], "axarg", lambda v: lexcept(v, str), dimk)
     table("reduceAxis", "AxArg → Dim → Except Err (Nat × Nat)", t["reduce"], "axarg",
           lambda v: lexcept(v, lambda p: f"({p[0]}, {p[1]})"), dimk)
+    L.append("/-- index selected along its matrix axis by `Image.slice(c, name)` for c = centre of voxel v (base shape 2x3x5) -/")
+    L.append("def sliceSel : Ax → Dim → Nat → Except Err Nat")
+    for (a, dim, v), val in t["sliceSel"].items():
+        L.append(f"  | .{a}, .d{dim}, {v} => {lexcept(val, str)}")
+    L.append("  | _, _, _ => (.error .index)")
+    L.append("")
     for name in ("m2c", "c2m"):
         L.append(f"def {name} : Dim → Except Err LayoutSpec")
         for dim in (1, 2, 3):
@@ -267,7 +299,7 @@ def oracle(ctx, d, t):
                 for a in C:
                     p, r = t["interpret"][(a, M)]
                     cidx.append(shape[p] - 1 - v[p] if r else v[p])
-                if tuple(cidx) >= tuple(cimg.shape) and any(ci >= s for ci, s in zip(cidx, cimg.shape)):
+                if len(cidx) != cimg.ndim or any(ci < 0 or ci >= s_ for ci, s_ in zip(cidx, cimg.shape)):
                     ok = False
                     break
                 if cimg[tuple(cidx)] != arr[v]:
@@ -277,11 +309,11 @@ def oracle(ctx, d, t):
                 ctx.fail(f"C20:matrixToCartesianIndexing(dim={dim}):placement", "Cartesian layout does not place voxels where the coordinate system says", {"shape": shape, "voxel": list(v)})
                 break
         # slicing and reduction by name vs by index
-        if dim >= 2:
-            for trial in range(ctx.pick(3, 20)):
+        if True:  # all dimensions 1-3 (a 1-D image is sliced / reduced to a 0-dimensional image)
+            for trial in range(ctx.pick(4, 24)):
                 shape = BASE_SHAPE[:dim] if trial == 0 else tuple(ctx.rng.randint(2, 6) for _ in range(dim))
                 series = trial % 2 == 1
-                img = make_image(d, dim, shape, series=series)
+                img = make_image(d, dim, shape, series=series, scalar=trial % 3 != 2)
                 for a in C:
                     ctx.count(("slice", dim, shape, a, series))
                     p, r = t["interpret"][(a, M)]
